@@ -22,6 +22,7 @@ import (
 	"strconv"
 	"strings"
 	"sync"
+	"sync/atomic"
 
 	"github.com/go-openapi/loads"
 	"github.com/go-openapi/runtime"
@@ -35,19 +36,23 @@ func init() {
 	mon.Register(&mon.Property{
 		ID:    "C20",
 		Level: "exploration",
-		Rule: "seeded option combinations for middleware.Spec / Redoc / RapiDoc / SwaggerUI / SwaggerUIOAuth2Callback (option structs filled directly: base path empty, '/', rooted, with trailing or doubled slashes, dot segments, a space, and without leading slash; UI path; spec path and document name; title, spec URL, asset URLs (SwaggerUI: bundle, preset, styles, both favicons) and the SwaggerUI callback URL carrying HTML/JS metacharacter markers; default or custom template; next recording or nil) and for Context.APIHandler / APIHandlerSwaggerUI / APIHandlerRapiDoc (generated description with base path, info title and operations placed on extensions/prefixes/siblings of the document paths - GET on static paths, other methods, and templates with a path parameter below or beside a document path; UIOption funcs; spec URL absolute path or absolute URL with directories, escapes, query, fragment, dot segments); " +
-			"requests: the document path exactly, with trailing slash, doubled slashes, dot segments (equal and different after cleaning), percent-escaped letters and slashes, prefixes, extensions, another letter case, unrelated paths; 9 methods; headers and bodies (JSON, and application/x-www-form-urlencoded ones that parsing the request would consume); one request in 4 carries Range, If-Modified-Since (a date in 2099), If-None-Match: *, Accept-Encoding: gzip, or all of them plus If-Range, and a first answer that carries ETag / Last-Modified is asked for again with those validators: the document path must answer 200 with the exact bytes all the same; titles and spec URLs with entity-like text (R&amp;D &lt;b&gt;, a&#39;b); one spec document in 60 (one API description in 20, one title in 150) exceeds 70 KiB. " +
-			"oracle: document path = path.Join('/', base, path[, document]); interception iff path.Clean(URL.Path) equals it; spec bytes (compared with a copy taken before the library saw the document) and media type; page scanned for markers verbatim and for marker cores (one of the value's own quotes or '<' standing raw before its alert(N) payload, whatever the spelling of what lies between), for the title, every later answer at the document path of a stand-alone UI middleware being byte for byte the first page, and - stand-alone - for the spec URL unescaped for the place where it stands (HTML attribute or JS string; equal up to percent-encoding); next must find an empty response header set, see the same method/URL/header/body/ContentLength and no parsed form, exactly once, and its answer must come back with exactly the header set it wrote; page's spec reference extracted (attribute or JS string, unescaped like a browser), resolved against the page URL and fetched from the same handler. " +
+		Rule: "seeded option combinations for middleware.Spec / Redoc / RapiDoc / SwaggerUI / SwaggerUIOAuth2Callback (option structs filled directly: base path empty, '/', rooted, with trailing or doubled slashes, dot segments, a space, and without leading slash; UI path; spec path and document name; title, spec URL, asset URLs (SwaggerUI: bundle, preset, styles, both favicons) and the SwaggerUI callback URL carrying HTML/JS metacharacter markers; default or custom template; next recording or nil) and for Context.APIHandler / APIHandlerSwaggerUI / APIHandlerRapiDoc (generated description with base path, info title and operations placed on extensions/prefixes/siblings of the document paths - GET on static paths, other methods, and templates with a path parameter below or beside a document path; UIOption funcs; spec URL absolute path or absolute URL with directories, escapes, query, fragment, dot segments; one in 4 with a Builder that passes everything on; one Redoc flavour in 4 obtained from middleware.Serve / ServeWithBuilder instead of Context.APIHandler); " +
+			"requests: the document path exactly, with trailing slash, doubled slashes, dot segments (equal and different after cleaning), percent-escaped letters and slashes, prefixes, extensions, another letter case, unrelated paths; 9 methods; headers and bodies (JSON, and application/x-www-form-urlencoded and multipart/form-data ones that parsing the request or reading a form value would consume); request paths carrying markup markers beside or below the document path; one request in 4 carries Range, If-Modified-Since (a date in 2099), If-None-Match: *, Accept-Encoding: gzip, or all of them plus If-Range, and a first answer that carries ETag / Last-Modified is asked for again with those validators: the document path must answer 200 with the exact bytes all the same; titles and spec URLs with entity-like text (R&amp;D &lt;b&gt;, a&#39;b); one spec document in 60 (one API description in 20, one title in 150) exceeds 70 KiB; one stand-alone case in 50 (API: 25) then has 4 goroutines, released together and joined, each GET the document path 20 times from the one handler; probes, classed and not judged: one OAuth2-callback case in 30 has the callback URL as an absolute URL, with a trailing slash or rootless, one UI case in 150 a custom template that does not parse or execute. " +
+			"oracle: document path = path.Join('/', base, path[, document]); interception iff path.Clean(URL.Path) equals it (a HEAD answer may leave the body out: status and media type are judged all the same; a refusal of a method other than GET/HEAD at the document path gets the signature suffix /non-get-method); every concurrent answer is 200 with the first answer's bytes; the 404 given without next to a path carrying markup does not carry a marker core raw unless it is text/plain or application/json; spec bytes (compared with a copy taken before the library saw the document) and media type; page scanned for markers verbatim and for marker cores (one of the value's own quotes or '<' standing raw before its alert(N) payload, whatever the spelling of what lies between), for the title, every later answer at the document path of a stand-alone UI middleware being byte for byte the first page, and - stand-alone - for the spec URL unescaped for the place where it stands (HTML attribute or JS string; equal up to percent-encoding); next must find an empty response header set, see the same method/URL/header/body/ContentLength and no parsed form, exactly once, and its answer must come back with exactly the header set it wrote; page's spec reference extracted (attribute or JS string, unescaped like a browser), resolved against the page URL and fetched from the same handler. " +
 			"non-trivial = every judged request and page check; distinct by (middleware, option shape, request-path relation, method class, next present)",
 		Assumptions: []string{
 			"defaults are the documented ones: base path '/', UI path 'docs', document 'swagger.json', spec URL '/swagger.json', title 'API Documentation' (API handlers: the description's title), UI base path of the API handlers = the API base path, OAuth2 callback = <base>/<path>/oauth2-callback",
 			"'cleaned path' is path.Clean of the decoded URL path (Request.URL.Path); requests always carry an absolute path",
-			"for the OAuth2 callback middleware an explicitly given OAuthCallbackURL is generated only as a clean absolute path (it is then the document path; SwaggerUI only renders it into the page, there it may carry markup); relative spec URLs through the API handlers are not judged (outside the statement), nor spec URLs with schemes other than http/https",
+			"for the OAuth2 callback middleware an explicitly given OAuthCallbackURL is judged only as a clean absolute path (it is then the document path; SwaggerUI only renders it into the page, there it may carry markup); given as an absolute URL, with a trailing slash or rootless it is a probe: whether the cleaned path of that URL is answered is recorded (probe:oauth2-callback-url/<shape>/...) for triage and not judged, every other path is judged to pass through as usual; relative spec URLs through the API handlers are not judged (outside the statement), nor spec URLs with schemes other than http/https",
 			"custom templates: only the escaping of option values and the path behaviour are judged, not their own content",
 			"'HTML-escaped' covers the five characters < > & ' \" wherever the value stands: one of a marker's own quotes or '<' standing raw before its payload is a refutation in every context (a backslash-escaped quote inside a script element counts as escaped); the payload itself is plain text and may stand anywhere",
 			"the spec URL a stand-alone page carries is compared with the option up to percent-encoding (URL-valued attributes may be normalised), after undoing the HTML-attribute or JS-string escaping of the place where it stands",
 			"an API operation is 'reachable' when its handler runs and the answer is 200, judged for requests without body that literally instantiate the operation's template (a {parameter} = one plain segment); which of several matching operations runs is not judged here",
-			"the statement does not single out methods: the document path is expected to be answered for every method",
+			"the statement does not single out methods: the document path is expected to be answered for every method. For methods other than GET and HEAD this is the MONITOR'S READING, not a clause (the first sentence says 'only', the second wants operations to stay reachable): such a refusal carries the signature suffix /non-get-method and is counted under expect:document-by-reading/, to be triaged as a reading",
+			"a HEAD request at a document path is answered with the document's status and media type; its body may be left out (no client can tell over a connection), and when present it must be the document",
+			"the 404 given when there is no next handler: the statement asks for the status only. That its body does not reflect markup of the request path raw in a media type a browser renders (anything but text/plain and application/json) is the MONITOR'S READING of the escaping clause (signature answer-without-next-reflects-request-markup/...)",
+			"concurrent requests are outside the statement's quantifier; the monitor reads 'the HTML page' / 'the exact spec bytes' as holding for every answer of one handler, also for answers given at the same time (signature suffix /concurrent-requests); the check binary is not built with the race detector, so only wrong bytes, a wrong status or a panic are seen",
+			"custom templates that do not parse or execute make construction panic as documented (WithTemplate): generated as probes (probe:custom-template-*), never judged",
 			"the request handed to next may be a copy carrying another context; method, URL, header, body, host and RequestURI must be identical",
 			"Swagger base paths without a leading slash are invalid descriptions and are not generated for the API-handler flavours",
 		},
@@ -66,7 +71,10 @@ type Rq struct {
 	Body   string `json:"body,omitempty"`
 	Header bool   `json:"header,omitempty"`
 	Form   bool   `json:"form,omitempty"` // Body is sent as application/x-www-form-urlencoded
-	Rel    string `json:"relation"`       // how the generator derived it (not used by the oracle)
+	// Multipart: Body is sent as multipart/form-data with the boundary multipartBoundary (a body that
+	// Request.FormValue / ParseMultipartForm would consume and park in MultipartForm)
+	Multipart bool   `json:"multipart,omitempty"`
+	Rel       string `json:"relation"` // how the generator derived it (not used by the oracle)
 	// Cond names the conditional / range / encoding request headers in Headers (range, if-modified-since,
 	// if-none-match, accept-encoding, all, validators-of-first-answer); the statement knows none of
 	// them: the document path is answered 200 with the exact bytes whatever the request carries
@@ -154,6 +162,18 @@ type Case struct {
 	// Pad: the description carries an info.description of that many bytes (a document beyond 64 KiB)
 	Pad int `json:"description_padding,omitempty"`
 
+	// Via: how the API handler is obtained: "" = Context.APIHandler*, "serve" = middleware.Serve,
+	// "serve-with-builder" = middleware.ServeWithBuilder (both are the Redoc flavour without UI options)
+	Via string `json:"via,omitempty"`
+	// Builder: a non-nil Builder (a decorator that passes everything on) is handed to the API handler
+	Builder bool `json:"builder,omitempty"`
+	// Concurrent: after the first answer, concGoroutines goroutines each GET the document path concRounds
+	// times from the same handler; every body must be the first answer's
+	Concurrent bool `json:"concurrent_gets,omitempty"`
+	// BadTemplate: the custom template does not parse ("unparsable") or does not execute ("unexecutable");
+	// construction is documented to panic then: a probe, classed and not judged
+	BadTemplate string `json:"bad_template,omitempty"`
+
 	Requests []Rq `json:"requests"`
 }
 
@@ -184,6 +204,9 @@ func docPath(c *Case) string {
 	case "spec":
 		return path.Join("/", c.BasePath, c.SpecPath, orDefault(c.Doc, "swagger.json"))
 	case "oauth2":
+		if callbackProbe(c) != "" {
+			return callbackProbePath(c.CallbackURL) // a probe: what is answered there is recorded, not judged
+		}
 		if c.CallbackURL != "" {
 			return c.CallbackURL
 		}
@@ -289,8 +312,12 @@ func specURLShape(s string) string {
 
 func optShape(c *Case) string {
 	if c.isAPI() {
-		return fmt.Sprintf("api=%s bp=%v:%s p=%v:%s su=%v:%s t=%v:%s it=%s cus=%v", pathShape(c.APIBase), c.SetBasePath, pathShape(c.BasePath), c.SetPath, pathShape(c.Path),
+		sh := fmt.Sprintf("api=%s bp=%v:%s p=%v:%s su=%v:%s t=%v:%s it=%s cus=%v", pathShape(c.APIBase), c.SetBasePath, pathShape(c.BasePath), c.SetPath, pathShape(c.Path),
 			c.SetSpecURL, specURLShape(c.SpecURL), c.SetTitle, valueShape(c.Title), valueShape(c.InfoTitle), c.Custom)
+		if c.Via != "" || c.Builder {
+			sh += fmt.Sprintf(" via=%s builder=%v", c.Via, c.Builder)
+		}
+		return sh
 	}
 	cb := pathShape(c.CallbackURL)
 	if valueShape(c.CallbackURL) == "marker" {
@@ -300,6 +327,9 @@ func optShape(c *Case) string {
 		valueShape(c.SpecURL), valueShape(c.Title), valueShape(c.AssetURL), cb, c.Custom)
 	if c.PresetURL != "" || c.Favicon16 != "" {
 		sh += fmt.Sprintf(" pr=%s f16=%s", valueShape(c.PresetURL), valueShape(c.Favicon16))
+	}
+	if p := callbackProbe(c); p != "" {
+		sh += " cbprobe=" + p
 	}
 	return sh
 }
@@ -565,6 +595,7 @@ func standaloneSpecRefs(c *Case, text string) (refs []pageRef, expected int) {
 // ---- next handler ----
 
 type nextRec struct {
+	b       *built // while b.conc is set, next only counts
 	calls   int
 	same    bool
 	method  string
@@ -586,6 +617,11 @@ type nextRec struct {
 var nextWrote = http.Header{"X-Next": {"yes"}}
 
 func (n *nextRec) ServeHTTP(w http.ResponseWriter, r *http.Request) {
+	if n.b != nil && n.b.conc.Load() {
+		n.b.concForeign.Add(1)
+		w.WriteHeader(299)
+		return
+	}
 	n.calls++
 	n.entryHeader = w.Header().Clone()
 	n.same = r == n.sentPtr
@@ -641,18 +677,26 @@ type built struct {
 	next    *nextRec
 	spec    []byte
 	handled *[]string // API flavours: templates whose handler ran
+
+	builderRuns int // API flavours with a Builder: requests that went through the decorator
+	// concurrent phase: next and the operation handlers touch nothing but concForeign
+	conc        atomic.Bool
+	concForeign atomic.Int32
 }
 
 func buildStandalone(c *Case) *built {
 	b := &built{}
 	var next http.Handler
 	if !c.NextNil {
-		b.next = &nextRec{}
+		b.next = &nextRec{b: b}
 		next = b.next
 	}
 	tpl := ""
 	if c.Custom {
 		tpl = customTemplate
+	}
+	if bad, ok := badTemplates[c.BadTemplate]; ok {
+		tpl = bad
 	}
 	switch c.MW {
 	case "spec":
@@ -754,6 +798,10 @@ func buildAPI(c *Case) (*built, error) {
 	for _, t := range c.Templates {
 		tmpl := t
 		api.RegisterOperation("get", tmpl, runtime.OperationHandlerFunc(func(interface{}) (interface{}, error) {
+			if b.conc.Load() {
+				b.concForeign.Add(1)
+				return map[string]interface{}{"op": tmpl}, nil
+			}
 			*b.handled = append(*b.handled, tmpl)
 			return map[string]interface{}{"op": tmpl}, nil
 		}))
@@ -761,9 +809,34 @@ func buildAPI(c *Case) (*built, error) {
 	for _, op := range c.Ops {
 		key := op.key()
 		api.RegisterOperation(strings.ToLower(op.Method), op.Template, runtime.OperationHandlerFunc(func(interface{}) (interface{}, error) {
+			if b.conc.Load() {
+				b.concForeign.Add(1)
+				return map[string]interface{}{"op": key}, nil
+			}
 			*b.handled = append(*b.handled, key)
 			return map[string]interface{}{"op": key}, nil
 		}))
+	}
+	var builder middleware.Builder
+	if c.Builder || c.Via == "serve-with-builder" {
+		builder = func(h http.Handler) http.Handler {
+			return http.HandlerFunc(func(w http.ResponseWriter, r *http.Request) {
+				if !b.conc.Load() {
+					b.builderRuns++
+				}
+				h.ServeHTTP(w, r)
+			})
+		}
+	}
+	switch c.Via {
+	case "serve":
+		b.h = middleware.Serve(doc, api)
+		decoys()
+		return b, nil
+	case "serve-with-builder":
+		b.h = middleware.ServeWithBuilder(doc, api, builder)
+		decoys()
+		return b, nil
 	}
 	ctx := middleware.NewContext(doc, api, nil)
 	var opts []middleware.UIOption
@@ -784,11 +857,11 @@ func buildAPI(c *Case) (*built, error) {
 	}
 	switch c.MW {
 	case "api-redoc":
-		b.h = ctx.APIHandler(nil, opts...)
+		b.h = ctx.APIHandler(builder, opts...)
 	case "api-swaggerui":
-		b.h = ctx.APIHandlerSwaggerUI(nil, opts...)
+		b.h = ctx.APIHandlerSwaggerUI(builder, opts...)
 	case "api-rapidoc":
-		b.h = ctx.APIHandlerRapiDoc(nil, opts...)
+		b.h = ctx.APIHandlerRapiDoc(builder, opts...)
 	}
 	decoys()
 	return b, nil
@@ -821,6 +894,9 @@ func send(b *built, rq *Rq) (a answer, ok bool) {
 	if rq.Form {
 		req.Header.Set("Content-Type", "application/x-www-form-urlencoded")
 	}
+	if rq.Multipart {
+		req.Header.Set("Content-Type", "multipart/form-data; boundary="+multipartBoundary)
+	}
 	if rq.Header {
 		req.Header.Set("X-Probe", "kept")
 		req.Header.Add("Accept", "text/html")
@@ -830,11 +906,12 @@ func send(b *built, rq *Rq) (a answer, ok bool) {
 		req.Header.Set(k, v)
 	}
 	if b.next != nil {
-		*b.next = nextRec{sentPtr: req}
+		*b.next = nextRec{sentPtr: req, b: b}
 	}
 	if b.handled != nil {
 		*b.handled = (*b.handled)[:0]
 	}
+	b.builderRuns = 0
 	rw := httptest.NewRecorder()
 	a.req = req
 	a.sentURL, a.sentURI, a.sentHost, a.sentHeader = req.URL.String(), req.RequestURI, req.Host, req.Header.Clone()
@@ -979,11 +1056,23 @@ func runCase(m *mon.M, c *Case) {
 	doc := docPath(c)
 	shape := optShape(c)
 	var b *built
-	if pv, st := mon.Catch(func() { b = buildStandalone(c) }); pv != nil || b == nil || b.h == nil {
+	pv, st := mon.Catch(func() { b = buildStandalone(c) })
+	if _, bad := badTemplates[c.BadTemplate]; bad && c.MW != "spec" {
+		// documented: "UI middleware will panic if the template does not parse or execute properly"
+		m.Eval(1)
+		if pv != nil {
+			m.Class("probe:custom-template-" + c.BadTemplate + "/construction-refused")
+		} else {
+			m.Class("probe:custom-template-" + c.BadTemplate + "/constructed")
+		}
+		return
+	}
+	if pv != nil || b == nil || b.h == nil {
 		m.Eval(1)
 		m.Violate("construction-panic/"+mwName(c), fmt.Sprintf("constructing %s panicked: %v\n%s", c.MW, pv, st), minimal(c, nil))
 		return
 	}
+	probe := callbackProbe(c) // != "": what is answered at the document path is recorded, not judged
 	feature := "rooted-options"
 	if rootless(c.BasePath) {
 		feature = "base-path-without-leading-slash"
@@ -1002,6 +1091,38 @@ func runCase(m *mon.M, c *Case) {
 			checkPage(m, c, a.body, one)
 			m.Class("page-checked/" + c.MW)
 			firstPage = a.body // the recorder's own buffer: nothing writes to it any more
+		}
+		if probe != "" && a.panicV == nil {
+			if firstPage != nil {
+				m.Class("probe:oauth2-callback-url/" + probe + "/served-at-its-cleaned-path")
+			} else {
+				m.Class("probe:oauth2-callback-url/" + probe + "/never-served")
+			}
+		}
+		if c.Concurrent && a.panicV == nil && a.status == 200 && (b.next == nil || b.next.calls == 0) {
+			want := firstPage
+			if c.MW == "spec" {
+				want = b.spec
+			}
+			if want != nil && (c.MW != "spec" || bytes.Equal(a.body, want)) {
+				m.Class("concurrent-gets/" + c.MW)
+				m.NT(c.MW + "|" + shape + "|concurrent")
+				if f := concurrentGets(m, b, (&url.URL{Path: doc}).EscapedPath(), want); f != nil {
+					what := fmt.Sprintf("%d goroutines x %d GET %s on one %s handler: %s", concGoroutines, concRounds, doc, c.MW, f.detail)
+					switch f.kind {
+					case "panic":
+						m.Violate("serve-panic/"+mwName(c)+"/concurrent-requests", what, one)
+					case "not-served":
+						m.Violate("document-path-not-served/"+feature+"/concurrent-requests", what, one)
+					default:
+						if c.MW == "spec" {
+							m.Violate("document-wrong-bytes/spec/concurrent-requests", what, one)
+						} else {
+							m.Violate("document-differs-from-first-page/"+mwName(c)+"/concurrent-requests", what, one)
+						}
+					}
+				}
+			}
 		}
 		if a.panicV == nil && a.status == 200 {
 			if vr := validatorsRq((&url.URL{Path: doc}).EscapedPath(), &a); vr != nil {
@@ -1034,14 +1155,28 @@ func runCase(m *mon.M, c *Case) {
 		if b.next != nil {
 			nextCalls = b.next.calls
 		}
+		if path.Clean(reqPath) == doc && probe != "" {
+			// a callback option that is no clean absolute path: recorded for triage, not judged
+			if nextCalls == 0 && a.status == 200 && a.ctype == "text/html" {
+				m.Class("probe:oauth2-callback-url/" + probe + "/request-answered-with-page")
+			} else {
+				m.Class("probe:oauth2-callback-url/" + probe + "/request-not-answered")
+			}
+			continue
+		}
 		if path.Clean(reqPath) == doc {
-			m.Class("expect:document/" + rel)
+			m.Class(expectDocClass(rq.Method, rel))
 			if nextCalls > 0 || a.status != 200 {
-				m.Violate("document-path-not-served/"+feature+condSuffix(rq, &a), fmt.Sprintf("%s%s was not answered by the middleware with the document (status %d, next called %d times)", what, condText(rq), a.status, nextCalls), one)
+				m.Violate("document-path-not-served/"+feature+condSuffix(rq, &a)+readingSuffix(rq.Method), fmt.Sprintf("%s%s was not answered by the middleware with the document (status %d, next called %d times)", what, condText(rq), a.status, nextCalls), one)
 				continue
 			}
+			// a HEAD answer may leave the body out: status and headers are judged all the same
+			noBody := headWithoutBody(rq.Method, a.body)
+			if noBody {
+				m.Class("head-answer-without-body")
+			}
 			if c.MW == "spec" {
-				if !bytes.Equal(a.body, b.spec) {
+				if !noBody && !bytes.Equal(a.body, b.spec) {
 					m.Violate("document-wrong-bytes/spec"+condSuffix(rq, &a), fmt.Sprintf("%s%s -> body %s (Content-Encoding %q), spec bytes %s", what, condText(rq), clipB(a.body), a.hdr.Get("Content-Encoding"), clipB(b.spec)), one)
 				} else if a.ctype != "application/json" {
 					m.Violate("document-wrong-content-type/spec", fmt.Sprintf("%s -> Content-Type %q", what, a.hdr.Get("Content-Type")), one)
@@ -1049,6 +1184,8 @@ func runCase(m *mon.M, c *Case) {
 			} else {
 				if a.ctype != "text/html" {
 					m.Violate("document-wrong-content-type/"+mwName(c), fmt.Sprintf("%s -> Content-Type %q", what, a.hdr.Get("Content-Type")), one)
+				} else if noBody {
+					// nothing to compare
 				} else if len(a.body) == 0 {
 					m.Violate("document-empty/"+mwName(c), what+" -> empty page", one)
 				} else if firstPage != nil {
@@ -1066,7 +1203,9 @@ func runCase(m *mon.M, c *Case) {
 		if b.next == nil {
 			if a.status != http.StatusNotFound {
 				m.Violate("foreign-path-not-404-without-next/"+rel, fmt.Sprintf("%s -> %d %s although there is no next handler", what, a.status, clipB(a.body)), one)
+				continue
 			}
+			checkReflection(m, c, what, reqPath, &a, one)
 			continue
 		}
 		n := b.next
@@ -1089,11 +1228,20 @@ func runCase(m *mon.M, c *Case) {
 			if fmt.Sprint(n.header) != fmt.Sprint(a.sentHeader) {
 				diffs = append(diffs, fmt.Sprintf("header %v (sent %v)", n.header, a.sentHeader))
 			}
+			bodyOnly := false
 			if n.body != rq.Body {
+				bodyOnly = len(diffs) == 0
 				diffs = append(diffs, fmt.Sprintf("body %q (sent %q)", n.body, rq.Body))
 			}
 			if len(diffs) > 0 {
-				m.Violate("next-request-modified", fmt.Sprintf("%s: next saw %s", what, strings.Join(diffs, "; ")), one)
+				sig := "next-request-modified"
+				switch {
+				case bodyOnly && rq.Form:
+					sig += "/form-body-consumed"
+				case bodyOnly && rq.Multipart:
+					sig += "/multipart-body-consumed"
+				}
+				m.Violate(sig, fmt.Sprintf("%s: next saw %s", what, strings.Join(diffs, "; ")), one)
 				break
 			}
 			// the request was not parsed or measured on the way: no form populated, same length, body present as sent
@@ -1107,6 +1255,9 @@ func runCase(m *mon.M, c *Case) {
 			}
 			if rq.Form {
 				m.Class("next:form-post-passed")
+			}
+			if rq.Multipart {
+				m.Class("next:multipart-post-passed")
 			}
 			if a.status != 299 || a.hdr.Get("X-Next") != "yes" || string(a.body) != "answered by next" {
 				m.Violate("next-answer-altered", fmt.Sprintf("%s: next answered 299 but the client saw %d %s", what, a.status, clipB(a.body)), one)
@@ -1276,6 +1427,32 @@ func runAPICase(m *mon.M, c *Case) {
 		m.Class("spec-reference-not-judged/" + sshape)
 	}
 
+	if c.Concurrent {
+		m.Class("concurrent-gets/" + c.MW)
+		m.NT(c.MW + "|" + shape + "|concurrent")
+		f := concurrentGets(m, b, pageURL.EscapedPath(), a.body)
+		where := ui
+		if f == nil && specDoc != "" {
+			where = specDoc
+			f = concurrentGets(m, b, escTarget(specDoc), b.spec)
+		}
+		if f != nil {
+			what := fmt.Sprintf("%d goroutines x %d GET %s on one %s handler: %s", concGoroutines, concRounds, where, c.MW, f.detail)
+			doc := "api-handler-ui"
+			if where != ui {
+				doc = "api-handler-spec"
+			}
+			switch f.kind {
+			case "panic":
+				m.Violate("serve-panic/"+c.MW+"/concurrent-requests", what, one)
+			case "not-served":
+				m.Violate("document-path-not-served/"+doc+"/concurrent-requests", what, one)
+			default:
+				m.Violate("document-differs-from-first-answer/"+doc+"/concurrent-requests", what, one)
+			}
+		}
+	}
+
 	requests := c.Requests
 	if vr := validatorsRq(pageURL.EscapedPath(), &a); vr != nil {
 		m.Class("first-answer-carries-validators")
@@ -1309,18 +1486,27 @@ func runAPICase(m *mon.M, c *Case) {
 			m.Violate("serve-panic/"+c.MW, fmt.Sprintf("%s panicked: %v\n%s", what, ra.panicV, ra.stack), one)
 			continue
 		}
-		isPage := ra.status == 200 && ra.ctype == "text/html" && bytes.Equal(ra.body, a.body)
-		isSpec := ra.status == 200 && bytes.Equal(ra.body, b.spec)
+		// a HEAD answer may leave the body out: it is then recognised by status and media type, given that no
+		// operation handler ran (the operations answer application/json from a handler that is recorded)
+		noBody := headWithoutBody(rq.Method, ra.body) && ra.status == 200 && len(*b.handled) == 0
+		isPage := ra.status == 200 && ra.ctype == "text/html" && (bytes.Equal(ra.body, a.body) || noBody)
+		isSpec := ra.status == 200 && (bytes.Equal(ra.body, b.spec) || noBody && ra.ctype == "application/json")
+		if noBody && (isPage || isSpec) {
+			m.Class("head-answer-without-body")
+		}
+		if b.builderRuns > 0 {
+			m.Class("builder-decorator-ran")
+		}
 		switch {
 		case cl == ui:
-			m.Class("expect:document/" + rel)
+			m.Class(expectDocClass(rq.Method, rel))
 			if !isPage {
-				m.Violate("document-path-not-served/api-handler-ui"+condSuffix(rq, &ra), fmt.Sprintf("%s%s -> %d %q %s instead of the UI page", what, condText(rq), ra.status, ra.ctype, clipB(ra.body)), one)
+				m.Violate("document-path-not-served/api-handler-ui"+condSuffix(rq, &ra)+readingSuffix(rq.Method), fmt.Sprintf("%s%s -> %d %q %s instead of the UI page", what, condText(rq), ra.status, ra.ctype, clipB(ra.body)), one)
 			}
 		case specDoc != "" && cl == specDoc:
-			m.Class("expect:document/" + rel)
+			m.Class(expectDocClass(rq.Method, rel))
 			if !isSpec || ra.ctype != "application/json" {
-				m.Violate("document-path-not-served/api-handler-spec"+condSuffix(rq, &ra), fmt.Sprintf("%s%s -> %d %q %s instead of the spec document", what, condText(rq), ra.status, ra.ctype, clipB(ra.body)), one)
+				m.Violate("document-path-not-served/api-handler-spec"+condSuffix(rq, &ra)+readingSuffix(rq.Method), fmt.Sprintf("%s%s -> %d %q %s instead of the spec document", what, condText(rq), ra.status, ra.ctype, clipB(ra.body)), one)
 			}
 		default:
 			if specDoc == "" {
@@ -1473,12 +1659,15 @@ func genTargets(r *rand.Rand, doc string, n int) []Rq {
 			rq.Header = true
 		}
 		if rq.Method == "POST" || rq.Method == "PUT" || rq.Method == "PATCH" {
-			switch r.Intn(4) {
+			switch r.Intn(5) {
 			case 0, 1:
 				rq.Body = `{"payload":"` + strconv.Itoa(r.Intn(1000)) + `"}`
 			case 2: // a body that parsing the request as a form would consume
-				rq.Body = "payload=" + strconv.Itoa(r.Intn(1000)) + "&format=json&a=b+c%21"
+				rq.Body = "payload=" + strconv.Itoa(r.Intn(1000)) + "&format=json&a=b+c%21&download=1"
 				rq.Form = true
+			case 3: // a multipart upload: reading a form value would consume it and park it in MultipartForm
+				rq.Body = multipartBody(r.Intn(1000))
+				rq.Multipart = true
 			}
 		}
 		if r.Intn(6) == 0 {
@@ -1491,7 +1680,7 @@ func genTargets(r *rand.Rand, doc string, n int) []Rq {
 		out = append(out, rq)
 	}
 	for len(out) < n {
-		switch r.Intn(16) {
+		switch r.Intn(17) {
 		case 0, 1:
 			add("exact", escTarget(doc))
 		case 2:
@@ -1533,6 +1722,8 @@ func genTargets(r *rand.Rand, doc string, n int) []Rq {
 			add("unrelated", pick(r, []string{"/", "/other", "/favicon.ico", "/docs", "/swagger.json", "/api", "/api/docs", "/docs/oauth2-callback"}))
 		case 15:
 			add("suffix-only", escTarget("/"+segs[len(segs)-1]))
+		case 16: // markup in the request path, beside or below the document path (never equal to it after cleaning)
+			add("markup-in-path", escTarget(pick(r, []string{"/", doc + "/", strings.TrimSuffix(path.Dir(doc), "/") + "/", doc + "-"})+marker(r)))
 		}
 	}
 	return out
@@ -1576,6 +1767,13 @@ func genStandalone(r *rand.Rand) *Case {
 		if c.MW == "swaggerui" || c.MW == "oauth2" {
 			c.CallbackURL = pick(r, callbackPool)
 		}
+		if c.MW == "oauth2" && r.Intn(30) == 0 {
+			// a redirect URL as users write it: absolute URL, trailing slash, rootless (a probe, see callbackProbe)
+			c.CallbackURL = pick(r, callbackProbePool)
+		}
+		if r.Intn(150) == 0 {
+			c.BadTemplate = pick(r, []string{"unparsable", "unexecutable"})
+		}
 		if c.MW == "swaggerui" {
 			// rendered into the page only (a JS string and two attributes): these may carry markup
 			if r.Intn(4) == 0 {
@@ -1589,6 +1787,7 @@ func genStandalone(r *rand.Rand) *Case {
 			}
 		}
 	}
+	c.Concurrent = r.Intn(50) == 0
 	c.Requests = genTargets(r, docPath(c), 12)
 	return c
 }
@@ -1631,6 +1830,14 @@ func genAPI(r *rand.Rand) *Case {
 		c.Title = maybeMarker(r, titlePool, 50)
 	}
 	c.Custom = r.Intn(6) == 0
+	c.Builder = r.Intn(4) == 0
+	if c.MW == "api-redoc" && r.Intn(4) == 0 {
+		// the two package-level ways to the same handler: no UI options can be given
+		c.Via = pick(r, []string{"serve", "serve-with-builder"})
+		c.SetBasePath, c.SetPath, c.SetSpecURL, c.SetTitle, c.Custom, c.Builder = false, false, false, false, false, false
+		c.BasePath, c.Path, c.SpecURL, c.Title = "", "", "", ""
+	}
+	c.Concurrent = r.Intn(25) == 0
 
 	ui := apiUIPath(c)
 	specDoc := "/swagger.json"
@@ -1685,10 +1892,8 @@ func genAPI(r *rand.Rand) *Case {
 		tset["/docs/swagger.json"] = true
 	}
 	// structurally distinct static templates only
-	lower := map[string]bool{}
 	for t := range tset {
 		c.Templates = append(c.Templates, t)
-		lower[t] = true
 	}
 	sortStrings(c.Templates)
 
